@@ -296,7 +296,7 @@ pub fn run(run: &Run) {
          determined by a zero/one operand (a>1 and b>1) or is an error case; oracle = independent \
          reference (BigUint primitives only)",
     );
-    let small_bound = run.tier.pick(31u64, 67u64);
+    let small_bound = run.tier.pick(31u64, 199u64);
     let mut small: Vec<u64> = (3..=small_bound).filter(|n| is_prime(*n)).collect();
     match run.tier {
         Tier::Quick => small.push(257),
